@@ -82,7 +82,7 @@ class Unit:
 def load_units():
     units = {}
     for p in sorted(glob.glob(os.path.join(HARNESS_DIR, '*.rs'))):
-        if os.path.basename(p) in ('support.rs',):
+        if os.path.basename(p) in ('support.rs', 'support_basic.rs', 'native_support.rs'):
             continue
         u = Unit(p)
         units[u.name] = u
@@ -131,6 +131,11 @@ def weave(repo, units, extra_cfg='kani'):
         with open(os.path.join(repo, 'src/op/mod.rs'), 'a') as f:
             f.write(f'\n#[cfg({extra_cfg})] #[path = "{sup}"] pub(crate) mod verif_support;\n')
         woven.append('src/op/mod.rs <- support.rs')
+    nsup = os.path.join(HARNESS_DIR, 'native_support.rs')
+    if os.path.exists(nsup) and any(u.filemeta.get('native') for u in units):
+        with open(os.path.join(repo, 'src/op/mod.rs'), 'a') as f:
+            f.write(f'\n#[cfg(verif_native)] #[path = "{nsup}"] pub(crate) mod verif_nsupport;\n')
+        woven.append('src/op/mod.rs <- native_support.rs')
     contracts = load_contracts()
     files = {}
     for u in units:
@@ -310,7 +315,7 @@ def load_known():
 
 def match_known(known, prop, obligation, desc):
     for k in known:
-        if k['property'] == prop and k['obligation'] == obligation and k['check'] and k['check'] in desc:
+        if k['obligation'] == obligation and k['check'] and k['check'] in desc:
             return k
     return None
 
